@@ -110,7 +110,7 @@ var fieldWritersBaseline = map[string][]string{
 	"nsqd.guidFactory.sequence":                               {"(*nsqd.guidFactory).NewGUID"},
 	"nsqd.lookupPeer.conn":                                    {"(*nsqd.lookupPeer).Connect"},
 	"nsqd.lookupPeer.state":                                   {"(*nsqd.lookupPeer).Close", "(*nsqd.lookupPeer).Command"},
-	"nsqlookupd.RegistrationDB.registrationMap":               {"(*nsqlookupd.RegistrationDB).AddProducer", "(*nsqlookupd.RegistrationDB).AddRegistration", "(*nsqlookupd.RegistrationDB).RemoveRegistration"},
+	"nsqlookupd.RegistrationDB.registrationMap":               {"(*nsqlookupd.RegistrationDB).AddProducer", "(*nsqlookupd.RegistrationDB).AddRegistration", "(*nsqlookupd.RegistrationDB).RemoveProducer", "(*nsqlookupd.RegistrationDB).RemoveRegistration"},
 	"nsqlookupd.PeerInfo.lastUpdate":                          {"(*nsqlookupd.LookupProtocolV1).PING"},
 	"nsqlookupd.Producer.tombstoned":                          {"(*nsqlookupd.Producer).Tombstone"},
 	"nsqlookupd.Producer.tombstonedAt":                        {"(*nsqlookupd.Producer).Tombstone"},
@@ -231,7 +231,7 @@ func fieldWritersOf(c *an.Ctx, pkg, typ string) map[string]map[string]ssa.Instru
 	}
 	fields := map[*types.Var]string{}
 	for i := 0; i < st.NumFields(); i++ {
-		fields[st.Field(i)] = pkg + "." + typ + "." + st.Field(i).Name()
+		fields[st.Field(i)] = pkg + "." + typ + "." + an.BaseFieldName(nt, st.Field(i))
 	}
 	note := func(key string, fn *ssa.Function, in ssa.Instruction) {
 		for _, o := range ownersOf(c, fn, 0) {
@@ -265,21 +265,58 @@ func fieldWritersOf(c *an.Ctx, pkg, typ string) map[string]map[string]ssa.Instru
 						note(key, fn, x)
 					}
 				case *ssa.UnOp:
-					for _, rr := range an.Referrers(x) {
-						switch y := rr.(type) {
-						case *ssa.MapUpdate:
-							if y.Map == ssa.Value(x) {
-								note(key, fn, y)
-							}
-						case *ssa.Call:
-							if bi, ok := y.Call.Value.(*ssa.Builtin); ok && bi.Name() == "delete" && len(y.Call.Args) > 0 && y.Call.Args[0] == ssa.Value(x) {
-								note(key, fn, y)
-							}
-						}
+					for _, w := range mapWrites(x, 0) {
+						note(key, fn, w)
 					}
 				}
 			}
 		})
+	}
+	return out
+}
+
+// mapWrites: the updates and deletes of the map m and of the maps stored in it (looked up, or met while ranging over it):
+// a registry of registries (RegistrationDB.registrationMap) is changed through its inner maps.
+func mapWrites(m ssa.Value, depth int) []ssa.Instruction {
+	if _, ok := m.Type().Underlying().(*types.Map); !ok || depth > 2 {
+		return nil
+	}
+	var out []ssa.Instruction
+	var inner func(v ssa.Value)
+	inner = func(v ssa.Value) {
+		if _, ok := v.Type().Underlying().(*types.Map); ok {
+			out = append(out, mapWrites(v, depth+1)...)
+			return
+		}
+		if _, ok := v.Type().(*types.Tuple); ok {
+			for _, r := range an.Referrers(v) {
+				if ex, ok := r.(*ssa.Extract); ok {
+					inner(ex)
+				}
+			}
+		}
+	}
+	for _, r := range an.Referrers(m) {
+		switch y := r.(type) {
+		case *ssa.MapUpdate:
+			if y.Map == m {
+				out = append(out, y)
+			}
+		case *ssa.Call:
+			if bi, ok := y.Call.Value.(*ssa.Builtin); ok && bi.Name() == "delete" && len(y.Call.Args) > 0 && y.Call.Args[0] == m {
+				out = append(out, y)
+			}
+		case *ssa.Lookup:
+			if y.X == m {
+				inner(y)
+			}
+		case *ssa.Range:
+			for _, rr := range an.Referrers(y) {
+				if nx, ok := rr.(*ssa.Next); ok {
+					inner(nx)
+				}
+			}
+		}
 	}
 	return out
 }
@@ -728,6 +765,7 @@ var fieldWritersVia = map[string][]string{
 	"(*nsqlookupd.Producer).Tombstone":                    {"(*nsqlookupd.httpServer).doTombstoneTopicProducer"},
 	"(*nsqlookupd.RegistrationDB).AddProducer":            {"(*nsqlookupd.LookupProtocolV1).IDENTIFY", "(*nsqlookupd.LookupProtocolV1).REGISTER"},
 	"(*nsqlookupd.RegistrationDB).AddRegistration":        {"(*nsqlookupd.httpServer).doCreateChannel", "(*nsqlookupd.httpServer).doCreateTopic"},
+	"(*nsqlookupd.RegistrationDB).RemoveProducer":         {"(*nsqlookupd.LookupProtocolV1).IOLoop", "(*nsqlookupd.LookupProtocolV1).UNREGISTER"},
 	"(*nsqlookupd.RegistrationDB).RemoveRegistration":     {"(*nsqlookupd.LookupProtocolV1).UNREGISTER", "(*nsqlookupd.httpServer).doDeleteChannel", "(*nsqlookupd.httpServer).doDeleteTopic"},
 	"(nsqd.inFlightPqueue).Swap":                          {"(*nsqd.inFlightPqueue).Pop", "(*nsqd.inFlightPqueue).Remove", "(*nsqd.inFlightPqueue).down", "(*nsqd.inFlightPqueue).up"},
 	"nsqadmin.New":                                        {"(*apps/nsqadmin.program).Start"},
